@@ -485,3 +485,65 @@ func helperImplies(g *ssa.Function, resWant, want bool, match func(cond ssa.Valu
 	}
 	return can
 }
+
+// LoopHeader returns the innermost loop header of in's block (a block that
+// dominates it and is reachable from it), or nil.
+func LoopHeader(in ssa.Instruction) *ssa.BasicBlock {
+	b := in.Block()
+	fn := b.Parent()
+	reach := map[*ssa.BasicBlock]bool{}
+	var walk func(x *ssa.BasicBlock)
+	walk = func(x *ssa.BasicBlock) {
+		for _, s := range x.Succs {
+			if !reach[s] {
+				reach[s] = true
+				walk(s)
+			}
+		}
+	}
+	walk(b)
+	var best *ssa.BasicBlock
+	for _, h := range fn.Blocks {
+		if !reach[h] || !h.Dominates(b) {
+			continue
+		}
+		// a header has a back edge: a predecessor it dominates
+		isHeader := false
+		for _, p := range h.Preds {
+			if h.Dominates(p) {
+				isHeader = true
+			}
+		}
+		if !isHeader {
+			continue
+		}
+		if best == nil || best.Dominates(h) {
+			best = h
+		}
+	}
+	return best
+}
+
+// SkippedInLoop reports a witness when an iteration of the innermost loop
+// around in can reach the loop header again without executing in
+// (a `continue`, or a conditional around it).
+func SkippedInLoop(in ssa.Instruction) []Witness {
+	h := LoopHeader(in)
+	if h == nil {
+		return nil
+	}
+	var out []Witness
+	for _, s := range h.Succs {
+		if s == h {
+			continue
+		}
+		// only successors from which in is reachable without passing the header: the body side
+		toIn := ReachAvoiding(Point{s, -1}, func(x ssa.Instruction) bool { return x == in }, func(x ssa.Instruction) bool { return x.Block() == h }, nil)
+		if len(toIn) == 0 {
+			continue
+		}
+		w := ReachAvoiding(Point{s, -1}, func(x ssa.Instruction) bool { return x.Block() == h }, func(x ssa.Instruction) bool { return x == in }, nil)
+		out = append(out, w...)
+	}
+	return out
+}
